@@ -43,6 +43,8 @@ def gen_case(rng, tier, idx):
         cfg['nest'] = rng.randrange(1000)
     elif rng.random() < 0.08 and not plain_idx(idx):
         cfg['abort'] = rng.randrange(1000)
+    if spec.get('listact'):
+        cfg['rep'] = 'dsp'
     if spec.get('giant'):
         cfg['heur'] = 'zero'        # integer costs beyond 2**53: only integer arithmetic is exact, so no float-valued heuristic
     plain = idx % 4 == 0
@@ -56,7 +58,7 @@ def execute(case, script=None):
     gv = GraphView(case['spec'])
     ctx = RunCtx(PROP, None)
     ctx.declare_probes('no_plan', 'start_is_goal', 'zero_cost_edge_on_path', 'two_goals_reachable', 'infinite_heuristic_seen',
-                       'self_loop_present', 'random_tie_break', 'shuffled_actions', 'big_graph', 'path_longer_than_1000_steps', 'integer_rewards', 'goals_without_actions', 'costs_beyond_2_53', 'nested_run', 'rerun_after_abort', 'aborts_delivered')
+                       'self_loop_present', 'random_tie_break', 'shuffled_actions', 'big_graph', 'path_longer_than_1000_steps', 'integer_rewards', 'unhashable_actions', 'goals_without_actions', 'costs_beyond_2_53', 'nested_run', 'rerun_after_abort', 'aborts_delivered')
     sched = make_scheduler(case, script, ctx)
     try:
         return _execute(se, gv, case['cfg'], ctx, sched)
@@ -137,6 +139,8 @@ def _execute(se, gv, cfg, ctx, sched):
         ctx.probe('big_graph')
     if gv.spec.get('intcost'):
         ctx.probe('integer_rewards')
+    if gv.spec.get('listact') and cfg['rep'] == 'dsp':
+        ctx.probe('unhashable_actions')
     if gv.spec.get('bare_goals') and gv.goals:
         ctx.probe('goals_without_actions')
     if gv.spec.get('giant') and best is not None and best >= 2 ** 53:
@@ -184,7 +188,7 @@ def _execute(se, gv, cfg, ctx, sched):
         cost = 0
         for x, y in zip(p, p[1:]):
             try:
-                ad = {aid[a]: pr for a, pr in r.policy.action_dist(sk[x]).items() if pr > 0}
+                ad = {(a[1] if isinstance(a, list) else aid[a]): pr for a, pr in r.policy.action_dist(sk[x]).items() if pr > 0}
             except Exception as e:
                 raise Violation('path-valid', f"{alg}: policy undefined at path state {x}: {type(e).__name__}: {e}")
             ctx.check(len(ad) == 1, 'path-valid', lambda: f"{alg}: policy at {x} is not a single action: {ad}")
